@@ -98,7 +98,12 @@ pub fn run(l: &[i128]) -> Vec<i128> {
             let mut a = Pixmap::new(64, 64).unwrap();
             let mut bb = Pixmap::new(64, 64).unwrap();
             a.stroke_path(&path, &paint, &stroke, t, None);
-            let rs = PathStroker::compute_resolution_scale(&t);
+            // the resolution scale by its definition (the longer of the two rows (sx, kx) and (ky, sy) of the matrix), NOT taken
+            // from the function under test
+            let row = |a: f32, b2: f32| (a * a + b2 * b2).sqrt();
+            let (r1, r2) = (row(t.sx, t.kx), row(t.ky, t.sy));
+            let rs = if r1.is_finite() && r2.is_finite() && r1.max(r2) > 0.0 { r1.max(r2) } else { 1.0 };
+            let _ = PathStroker::compute_resolution_scale(&t);
             if let Some(sp) = path.stroke(&stroke, rs) {
                 bb.fill_path(&sp, &paint, FillRule::Winding, t, None);
             }
